@@ -94,7 +94,9 @@ fn nested_loop() -> String {
     }
 }
 
-struct Scripted;
+/// the inner future / stream / sink, scripted by the driver; the flag = the stream has announced its last item
+#[derive(Default)]
+struct Scripted(bool);
 impl std::future::Future for Scripted {
     type Output = ();
     fn poll(self: std::pin::Pin<&mut Self>, _cx: &mut std::task::Context<'_>) -> std::task::Poll<()> {
@@ -110,8 +112,16 @@ impl futures_core::Stream for Scripted {
         match nested_loop().as_str() {
             "pending" => std::task::Poll::Pending,
             "none" => std::task::Poll::Ready(None),
+            // an exact-size stream: after its last item `size_hint` says nothing is left, `None` comes with the next poll
+            "item_last" => {
+                self.get_mut().0 = true;
+                std::task::Poll::Ready(Some(1))
+            }
             _ => std::task::Poll::Ready(Some(1)),
         }
+    }
+    fn size_hint(&self) -> (usize, Option<usize>) {
+        if self.0 { (0, Some(0)) } else { (0, None) }
     }
 }
 impl futures_sink::Sink<u32> for Scripted {
@@ -581,13 +591,13 @@ fn thread_op(k: usize, guards: &mut Vec<G>, w: &[&str]) -> Option<String> {
         ["adNew", a, kind, arg] => {
             use fastrace::future::FutureExt as _;
             let ad = match *kind {
-                "enterOnPoll" => Ad::Eop(Box::pin(Scripted.enter_on_poll(str_of_hex(arg)?))),
+                "enterOnPoll" => Ad::Eop(Box::pin(Scripted::default().enter_on_poll(str_of_hex(arg)?))),
                 _ => {
                     let Some(sp) = take_span(arg) else { return Some("bad-op unknown span".into()) };
                     match *kind {
-                        "inSpan" => Ad::Fut(Box::pin(Scripted.in_span(sp))),
-                        "stream" => Ad::Stream(Box::pin(fastrace_futures::StreamExt::in_span(Scripted, sp))),
-                        "sink" => Ad::Sink(Box::pin(fastrace_futures::SinkExt::<u32>::in_span(Scripted, sp))),
+                        "inSpan" => Ad::Fut(Box::pin(Scripted::default().in_span(sp))),
+                        "stream" => Ad::Stream(Box::pin(fastrace_futures::StreamExt::in_span(Scripted::default(), sp))),
+                        "sink" => Ad::Sink(Box::pin(fastrace_futures::SinkExt::<u32>::in_span(Scripted::default(), sp))),
                         _ => return None,
                     }
                 }
